@@ -87,26 +87,26 @@ Section Trace.
   Qed.
 
   (* ---- samples -------------------------------------------------------------- *)
-  Definition sample_at (c : Z) (hl : bool) (t : Z) (fr : bool) : sample :=
-    sample_of fr (snap_of H t (mgr_at c hl)).
+  Definition sample_at (c : Z) (hl : bool) (t : Z) (fr pr : bool) : sample :=
+    sample_of fr pr (snap_of H t (mgr_at c hl)).
 
   Inductive tl : Z -> Z -> list sample -> Prop :=
   | tl_nil c t : tl c t []
-  | tl_cons c t c' hl t' fr l :
+  | tl_cons c t c' hl t' fr pr l :
       c <= c' <= c + 1 -> bounds c' t' -> (fr = true -> c' = c /\ t' = t) -> tl c' t' l ->
-      tl c t (sample_at c' hl t' fr :: l).
+      tl c t (sample_at c' hl t' fr pr :: l).
 
   Lemma etl_tl c t l : etl c t l -> tl c t (samples_of l).
   Proof.
     induction 1; cbn [samples_of].
     - constructor.
-    - apply (tl_cons c t c' hl t' false); try assumption. discriminate.
-    - apply (tl_cons c t c hl t true); try assumption; [lia | auto].
-    - apply (tl_cons c t c hl t true); try assumption; [lia | auto].
+    - apply (tl_cons c t c' hl t' false false); try assumption. discriminate.
+    - apply (tl_cons c t c hl t true false); try assumption; [lia | auto].
+    - apply (tl_cons c t c hl t true true); try assumption; [lia | auto].
     - assumption.
   Qed.
 
-  Lemma srv_hash c hl t fr : o_h (s_srv (sample_at c hl t fr)) = Hc c.
+  Lemma srv_hash c hl t fr pr : o_h (s_srv (sample_at c hl t fr pr)) = Hc c.
   Proof. reflexivity. Qed.
 
   Lemma ahead_ok_tl l : forall c0 t0 budget lst,
@@ -115,7 +115,7 @@ Section Trace.
     ahead_ok lst (Hc c0) budget l = true.
   Proof.
     induction l as [|x r IH]; intros c0 t0 budget lst Htl Hadv; [reflexivity|].
-    inversion Htl as [|? ? c' hl t' fr ? Hc' Hb Hfr Hr]; subst.
+    inversion Htl as [|? ? c' hl t' fr pr ? Hc' Hb Hfr Hr]; subst.
     cbn [ahead_ok]. rewrite srv_hash.
     destruct (Z.eqb_spec (Hc c') (Hc c0)) as [E|NE].
     - apply Hc_inj in E. subst c'. apply (IH c0 t'); assumption.
@@ -125,7 +125,7 @@ Section Trace.
       apply (IH (c0 + 1) t'); [assumption|]. intros k Hk. apply Hadv. lia.
   Qed.
 
-  Lemma sample_diag_ok c hl t fr : bounds c t -> sample_diag (pS p) (sample_at c hl t fr) = [].
+  Lemma sample_diag_ok c hl t fr pr : bounds c t -> sample_diag (pS p) (sample_at c hl t fr pr) = [].
   Proof.
     intros (_ & H1 & H2). unfold sample_diag.
     cbn [s_srv s_t s_addr s_ser sample_at sample_of snap_of sn_t sn_srv sn_addr sn_ser served m_cur Proofs.mgr_at].
@@ -138,26 +138,143 @@ Section Trace.
     reflexivity.
   Qed.
 
+  (* ---- an address learned at any time: the dialer's two checks succeed ------- *)
+  (* from a state serving bucket c (address = [c, c+1]) to any later state still
+     in bucket c or c+1 of a manager that has not been restarted in between:
+     the served certificate is pinned by the old address and every hash of the
+     old address is confirmed by the new early-data list *)
+  Lemma learned_address_confirmed c hl c' hl' :
+    c <= c' <= c + 1 -> (c' = c + 1 -> hl' = true) ->
+    let addr := hashes_of H (m_addr (mgr_at c hl)) in
+    advertises addr (Hc c') = true /\
+    confirm addr (hashes_of H (m_ser (mgr_at c' hl'))) = true.
+  Proof.
+    intros Hk Hhl. cbv zeta. split; [apply addr_advertises; lia|].
+    apply confirm_spec. intros h Hin.
+    cbn [m_addr Proofs.mgr_at hashes_of map] in Hin.
+    assert (c' = c \/ c' = c + 1) as [-> | ->] by lia.
+    - cbn [m_ser Proofs.mgr_at]. unfold hashes_of. rewrite map_app. apply in_or_app. right. exact Hin.
+    - rewrite (Hhl eq_refl). cbn [m_ser Proofs.mgr_at app]. replace (c + 1 - 1) with c by lia.
+      cbn [hashes_of map]. destruct Hin as [<- | [<- | []]]; cbn; tauto.
+  Qed.
+
+  Lemma addr_confirmed ci hli c0 m : ci <= c0 <= ci + 1 -> (c0 = ci + 1 -> m = true) ->
+    confirm (hashes_of H (m_addr (mgr_at ci hli))) (hashes_of H (m_ser (mgr_at c0 m))) = true.
+  Proof. intros Hk Hm. exact (proj2 (learned_address_confirmed ci hli c0 m Hk Hm)). Qed.
+
+  (* ---- clause 9: the manager that gave out an address confirms it ----------- *)
+  (* [eseg c m l] / [seg c m l]: l continues a timeline whose long-running manager
+     is mgr_at c m (m = it still holds lastConfig) *)
+  Inductive eseg : Z -> bool -> list ev -> Prop :=
+  | eseg_nil c m : eseg c m []
+  | eseg_adv c m c' hl' t' d l :
+      c <= c' <= c + 1 -> (c' = c -> hl' = m) -> (c < c' -> hl' = true) -> eseg c' hl' l ->
+      eseg c m (EAdv d (snap_of H t' (mgr_at c' hl')) :: l)
+  | eseg_restart c m t l :
+      eseg c false l -> eseg c m (ERestart (snap_of H t (mgr_at c false)) :: l)
+  | eseg_probe c m t l :
+      eseg c m l -> eseg c m (EProbe (snap_of H t (mgr_at c false)) :: l)
+  | eseg_regen c m s e l :
+      eseg c m l -> eseg c m (ERegen s e (H s e) :: l).
+
+  Lemma events_from_eseg ops : forall w c hl,
+    w_mgr w = mgr_at c hl -> bounds c (w_now w) -> Forall (op_small p) ops ->
+    eseg c hl (events_from H p off w ops).
+  Proof.
+    induction ops as [|o r IH]; intros w c hl E Hb Hf; [constructor|].
+    inversion Hf as [|? ? Ho Hr]; subst. cbn [events_from].
+    destruct o as [d | | | s e]; cbn [step ev_of op_small] in *.
+    - rewrite E. destruct (step_adv_at p off Hwf Hoff c hl (w_now w) d Hb ltac:(lia))
+        as (c' & hl' & E' & Hb' & Hc1 & Hc2 & Hsame & Hup).
+      cbn [w_now w_mgr]. rewrite E'. apply eseg_adv; [lia | exact Hsame | exact Hup |].
+      apply (IH (mkWorld (w_now w + d) (mgr_at c' hl')) c' hl'); [reflexivity | exact Hb' | exact Hr].
+    - cbn [w_now w_mgr]. rewrite (init_same_bucket p off Hwf Hoff c _ Hb).
+      apply eseg_restart.
+      apply (IH (mkWorld (w_now w) (mgr_at c false)) c false); [reflexivity | exact Hb | exact Hr].
+    - rewrite (init_same_bucket p off Hwf Hoff c _ Hb).
+      apply eseg_probe. apply (IH w c hl); assumption.
+    - apply eseg_regen. apply (IH w c hl); assumption.
+  Qed.
+
+  Inductive seg : Z -> bool -> list sample -> Prop :=
+  | seg_nil c m : seg c m []
+  | seg_adv c m c' hl' t' l :
+      c <= c' <= c + 1 -> (c' = c -> hl' = m) -> (c < c' -> hl' = true) -> seg c' hl' l ->
+      seg c m (sample_at c' hl' t' false false :: l)
+  | seg_restart c m t l : seg c false l -> seg c m (sample_at c false t true false :: l)
+  | seg_probe c m t l : seg c m l -> seg c m (sample_at c false t true true :: l).
+
+  Lemma eseg_seg c m l : eseg c m l -> seg c m (samples_of l).
+  Proof.
+    induction 1; cbn [samples_of].
+    - constructor.
+    - apply seg_adv; assumption.
+    - apply seg_restart; assumption.
+    - apply seg_probe; assumption.
+    - assumption.
+  Qed.
+
+  (* address given out while bucket ci was served; the manager now serves c0 *)
+  Lemma confirm_ahead_seg l : forall c0 m budget ci hli,
+    seg c0 m l -> ci <= c0 -> Z.of_nat budget = ci + 1 - c0 -> (c0 = ci + 1 -> m = true) ->
+    confirm_ahead (hashes_of H (m_addr (mgr_at ci hli))) (Hc c0) budget l = true.
+  Proof.
+    induction l as [|y r IH]; intros c0 m budget ci hli Hseg Hle Hbud Hm; [reflexivity|].
+    inversion Hseg as [| ? ? c' hl' t' ? Hc' Hsame Hup Hr | ? ? t ? Hr | ? ? t ? Hr]; subst; cbn [confirm_ahead].
+    - cbn [s_probe s_fresh sample_at sample_of]. rewrite srv_hash.
+      destruct (Z.eqb_spec (Hc c') (Hc c0)) as [E|NE].
+      + apply Hc_inj in E. subst c'. rewrite (Hsame eq_refl).
+        cbn [s_ser sample_at sample_of snap_of sn_ser].
+        rewrite (addr_confirmed ci hli c0 m ltac:(lia) Hm). cbn [andb].
+        apply (IH c0 m); try assumption. rewrite <- (Hsame eq_refl). exact Hr.
+      + assert (c' = c0 + 1) by (assert (c' <> c0) by congruence; lia). subst c'.
+        destruct budget as [|b]; [reflexivity|].
+        assert (c0 = ci) by lia. subst c0.
+        rewrite (Hup ltac:(lia)) in *.
+        cbn [s_ser sample_at sample_of snap_of sn_ser].
+        rewrite (addr_confirmed ci hli (ci + 1) true ltac:(lia) ltac:(auto)). cbn [andb].
+        apply (IH (ci + 1) true); try assumption; [lia | lia | auto].
+    - reflexivity.
+    - cbn [s_probe sample_at sample_of]. apply (IH c0 m); assumption.
+  Qed.
+
+  Fixpoint clause9_all (l : list sample) : Prop :=
+    match l with
+    | [] => True
+    | x :: r => (s_probe x || confirm_ahead (s_addr x) (o_h (s_srv x)) 1 r = true) /\ clause9_all r
+    end.
+
+  Lemma seg_clause9 l : forall c m, seg c m l -> clause9_all l.
+  Proof.
+    induction l as [|x r IH]; intros c m Hseg; [exact I|].
+    inversion Hseg as [| ? ? c' hl' t' ? Hc' Hsame Hup Hr | ? ? t ? Hr | ? ? t ? Hr]; subst; cbn [clause9_all].
+    - split; [|eapply IH; exact Hr]. cbn [s_probe sample_at sample_of orb]. rewrite srv_hash.
+      apply (confirm_ahead_seg r c' hl' 1%nat c' hl'); [exact Hr | lia | cbn; lia | lia].
+    - split; [|eapply IH; exact Hr]. cbn [s_probe sample_at sample_of orb]. rewrite srv_hash.
+      apply (confirm_ahead_seg r c false 1%nat c false); [exact Hr | lia | cbn; lia | lia].
+    - split; [reflexivity | eapply IH; exact Hr].
+  Qed.
+
   Lemma timeline_ok l : forall c t i pv,
-    tl c t l -> s_t pv = t -> s_srv pv = cobs_of H (cfg_at c) ->
+    tl c t l -> clause9_all l -> s_t pv = t -> s_srv pv = cobs_of H (cfg_at c) ->
     timeline_diag (pS p) i (Some pv) l = [].
   Proof.
-    induction l as [|x r IH]; intros c t i pv Htl Ht Hs; [reflexivity|].
-    inversion Htl as [|? ? c' hl t' fr ? Hc' Hb Hfr Hr]; subst.
-    cbn [timeline_diag]. rewrite (sample_diag_ok c' hl t' fr Hb).
-    assert (A1 : ahead_ok (s_addr (sample_at c' hl t' fr)) (o_h (s_srv (sample_at c' hl t' fr))) 1 r = true).
+    induction l as [|x r IH]; intros c t i pv Htl H9a Ht Hs; [reflexivity|]. destruct H9a as [H9 H9r].
+    inversion Htl as [|? ? c' hl t' fr pr ? Hc' Hb Hfr Hr]; subst.
+    cbn [timeline_diag]. rewrite (sample_diag_ok c' hl t' fr pr Hb).
+    assert (A1 : ahead_ok (s_addr (sample_at c' hl t' fr pr)) (o_h (s_srv (sample_at c' hl t' fr pr))) 1 r = true).
     { rewrite srv_hash. apply (ahead_ok_tl r c' t'); [assumption|]. intros k Hk.
       apply (addr_advertises c' hl k). cbn in Hk. lia. }
-    assert (A2 : ahead_ok (s_ser (sample_at c' hl t' fr)) (o_h (s_srv (sample_at c' hl t' fr))) 1 r = true).
+    assert (A2 : ahead_ok (s_ser (sample_at c' hl t' fr pr)) (o_h (s_srv (sample_at c' hl t' fr pr))) 1 r = true).
     { rewrite srv_hash. apply (ahead_ok_tl r c' t'); [assumption|]. intros k Hk.
       apply (ser_advertises c' hl k). cbn in Hk. lia. }
     rewrite A1, A2. cbn [negb].
-    assert (A3 : fresh_ok pv (sample_at c' hl t' fr) = true).
+    assert (A3 : fresh_ok pv (sample_at c' hl t' fr pr) = true).
     { unfold fresh_ok. destruct fr; [|reflexivity]. destruct (Hfr eq_refl) as [-> ->].
       cbn [s_fresh sample_at sample_of negb orb s_t s_srv sn_t sn_srv snap_of served m_cur Proofs.mgr_at].
       rewrite Hs. rewrite !Z.eqb_refl. reflexivity. }
-    rewrite A3. cbn [negb].
-    apply (IH c' t'); [assumption | reflexivity | reflexivity].
+    rewrite A3, H9. cbn [negb].
+    apply (IH c' t'); [assumption | assumption | reflexivity | reflexivity].
   Qed.
 
   (* ---- determinism table ----------------------------------------------------- *)
@@ -197,18 +314,23 @@ Section Trace.
     cbn [w_now] in Hetl.
     set (evs := events_from H p off (mkWorld t0 (mgr_at c false)) ops) in *.
     unfold monitor_mgr. cbn [samples_of].
-    fold (sample_at c false t0 false).
-    assert (Hd : timeline_diag (pS p) 0 None (sample_at c false t0 false :: samples_of evs) = []).
+    fold (sample_at c false t0 false false).
+    assert (Hd : timeline_diag (pS p) 0 None (sample_at c false t0 false false :: samples_of evs) = []).
     { pose proof (etl_tl _ _ _ Hetl) as Htl.
-      cbn [timeline_diag]. rewrite (sample_diag_ok c false t0 false Hb).
-      assert (A1 : ahead_ok (s_addr (sample_at c false t0 false)) (o_h (s_srv (sample_at c false t0 false))) 1 (samples_of evs) = true).
+      cbn [timeline_diag]. rewrite (sample_diag_ok c false t0 false false Hb).
+      assert (A1 : ahead_ok (s_addr (sample_at c false t0 false false)) (o_h (s_srv (sample_at c false t0 false false))) 1 (samples_of evs) = true).
       { rewrite srv_hash. apply (ahead_ok_tl _ c t0); [assumption|]. intros k Hk.
         apply (addr_advertises c false k). cbn in Hk. lia. }
-      assert (A2 : ahead_ok (s_ser (sample_at c false t0 false)) (o_h (s_srv (sample_at c false t0 false))) 1 (samples_of evs) = true).
+      assert (A2 : ahead_ok (s_ser (sample_at c false t0 false false)) (o_h (s_srv (sample_at c false t0 false false))) 1 (samples_of evs) = true).
       { rewrite srv_hash. apply (ahead_ok_tl _ c t0); [assumption|]. intros k Hk.
         apply (ser_advertises c false k). cbn in Hk. lia. }
-      rewrite A1, A2. cbn [negb s_fresh sample_at sample_of].
-      apply (timeline_ok _ c t0); [assumption | reflexivity | reflexivity]. }
+      pose proof (eseg_seg _ _ _ (events_from_eseg ops (mkWorld t0 (mgr_at c false)) c false eq_refl Hb Hops)) as Hseg.
+      fold evs in Hseg.
+      assert (A4 : confirm_ahead (s_addr (sample_at c false t0 false false))
+                     (o_h (s_srv (sample_at c false t0 false false))) 1 (samples_of evs) = true).
+      { rewrite srv_hash. apply (confirm_ahead_seg _ c false 1%nat c false); [exact Hseg | lia | cbn; lia | lia]. }
+      rewrite A1, A2, A4. cbn [negb orb s_fresh s_probe sample_at sample_of].
+      apply (timeline_ok _ c t0); [assumption | eapply seg_clause9; exact Hseg | reflexivity | reflexivity]. }
     rewrite Hd.
     rewrite functional_ok; [reflexivity|].
     intros s e h Hin. cbn [triples_of flat_map] in Hin. apply in_app_or in Hin as [Hin|Hin].
@@ -228,23 +350,4 @@ Section Trace.
     destruct (Z.leb_spec 0 d); [|lia]. destruct (Z.leb_spec d (pP p)); [|lia]. reflexivity.
   Qed.
 
-  (* ---- an address learned at any time: the dialer's two checks succeed ------- *)
-  (* from a state serving bucket c (address = [c, c+1]) to any later state still
-     in bucket c or c+1 of a manager that has not been restarted in between:
-     the served certificate is pinned by the old address and every hash of the
-     old address is confirmed by the new early-data list *)
-  Lemma learned_address_confirmed c hl c' hl' :
-    c <= c' <= c + 1 -> (c' = c + 1 -> hl' = true) ->
-    let addr := hashes_of H (m_addr (mgr_at c hl)) in
-    advertises addr (Hc c') = true /\
-    confirm addr (hashes_of H (m_ser (mgr_at c' hl'))) = true.
-  Proof.
-    intros Hk Hhl. cbv zeta. split; [apply addr_advertises; lia|].
-    apply confirm_spec. intros h Hin.
-    cbn [m_addr Proofs.mgr_at hashes_of map] in Hin.
-    assert (c' = c \/ c' = c + 1) as [-> | ->] by lia.
-    - cbn [m_ser Proofs.mgr_at]. unfold hashes_of. rewrite map_app. apply in_or_app. right. exact Hin.
-    - rewrite (Hhl eq_refl). cbn [m_ser Proofs.mgr_at app]. replace (c + 1 - 1) with c by lia.
-      cbn [hashes_of map]. destruct Hin as [<- | [<- | []]]; cbn; tauto.
-  Qed.
 End Trace.
